@@ -108,6 +108,27 @@ fn $name(e: End, code: Code, v: u64, out: &mut Outcome) {
             }
         }
     }
+    // ---- the enumeration value obtained from the compile-time identifier of the same name
+    if let Some(id) = const_id(code) {
+        match Codes::from_code_const(id) {
+            Err(_) => bad("Codes::from_code_const", "write", "error", format!("identifier {} (the constant named after this code) is not accepted", id)),
+            Ok(c2) => {
+                let r = write_with::<E>(&|w| Some(DynamicCodeWrite::write(&c2, w, v).map_err(|e| format!("{e}"))));
+                match r {
+                    Some(Ok((b, n))) => {
+                        out.cov.transitions += 1;
+                        if n != dlen {
+                            bad("Codes::from_code_const", "write", "length", format!("{:?} (from identifier {}) returned {} but the direct method returned {}", c2, id, n, dlen));
+                        } else if b != dbytes {
+                            bad("Codes::from_code_const", "write", "bytes", format!("{:?} (from identifier {}) wrote {} but the direct method wrote {}", c2, id, crate::util::hex(&b), crate::util::hex(&dbytes)));
+                        }
+                    }
+                    Some(Err(msg)) => bad("Codes::from_code_const", "write", if msg.starts_with("panic") { "panic" } else { "error" }, msg),
+                    None => {}
+                }
+            }
+        }
+    }
     // ---- lengths
     let dl = direct_len(code, v);
     if dl != dlen {
@@ -279,7 +300,7 @@ pub fn c10(ctx: &Ctx) -> (CheckMeta, Outcome) {
     let meta = CheckMeta {
         property: "C10".into(),
         level: "exploration".into(),
-        rule: "the statistics wrapper in eight instantiations of its const parameters (unequal and zero-sized families included) returns the direct method's lengths and values on writes and reads; complete over identifiers: every code named by the 51 code_consts (all aliases) and every Codes variant with parameters 0..=12 plus {17,31,32,63} / large Golomb moduli, x every dispatcher kind (Codes dynamic+static, FuncCodeWriter/Reader, FactoryFuncCodeReader::new().get(), ConstCode<ID> with ID taken from the constant's NAME, CodesStatsWrapper around Codes / Func* / ConstCode, Codes::len, FuncCodeLen, ConstCode::len) x {write, read, len} x both endiannesses x values (dense below 4096 (thorough 65536), every 2^i+-2, step points, maxima); oracle: bytes and returned length written via the dispatcher = those of the direct trait method (PRE bits, codeword, POST bits); value and end position read via the dispatcher = direct method; len = direct len; a dispatcher whose constructor refuses the code is skipped (Err, never another code); evaluations = (code, value, E) items, transitions = dispatcher calls compared; non-trivial = value > 0 of a code that has an identifier constant".into(),
+        rule: "the statistics wrapper in eight instantiations of its const parameters (unequal and zero-sized families included) returns the direct method's lengths and values on writes and reads; complete over identifiers (the enumeration value obtained with from_code_const from the constant of the same name must write the direct method's bits): every code named by the 51 code_consts (all aliases) and every Codes variant with parameters 0..=12 plus {17,31,32,63} / large Golomb moduli, x every dispatcher kind (Codes dynamic+static, FuncCodeWriter/Reader, FactoryFuncCodeReader::new().get(), ConstCode<ID> with ID taken from the constant's NAME, CodesStatsWrapper around Codes / Func* / ConstCode, Codes::len, FuncCodeLen, ConstCode::len) x {write, read, len} x both endiannesses x values (dense below 4096 (thorough 65536), every 2^i+-2, step points, maxima); oracle: bytes and returned length written via the dispatcher = those of the direct trait method (PRE bits, codeword, POST bits); value and end position read via the dispatcher = direct method; len = direct len; a dispatcher whose constructor refuses the code is skipped (Err, never another code); evaluations = (code, value, E) items, transitions = dispatcher calls compared; non-trivial = value > 0 of a code that has an identifier constant".into(),
         assumptions: vec!["the direct trait methods are the specification here (their own correctness is C03/C04/C06)".into()],
     };
     (meta, out)
